@@ -4,6 +4,8 @@
 //!   c01 unesc <utf8-string-hex>             real unescape_filename on an arbitrary string → `ok <hex>` | `err`
 //!   c01 start <size,size,…|-> <offset>       real ContentStartpoints::compute_start → `ok <i> <off>`
 //!   c01 coalesce <off:len,off:len,…>         real BlobLocations::coalesce chain → `ok <off>:<len>:<n> …`
+//!   c01 link <target-hex>                   real NodeType::from_link / to_link (+ serde_json round trip of the node) →
+//!                                           `ok <raw present 0|1> <to_link bytes> <stored string bytes, `-` if raw present>`
 //!   c01 e2e <cfg…> [opt…] <entries…> <seed>  real init + backup of an in-memory tree, then every way of reading the
 //!                                           snapshot back is compared with the source (oracles); observation = per
 //!                                           entry `path:kind[:len:chunk-lengths]`, which the model predicts with the
@@ -985,6 +987,24 @@ pub fn exec(toks: &[&str]) -> String {
                 }
                 format!("ok {}", groups.iter().map(|(o, n, k)| format!("{o}:{n}:{k}")).collect::<Vec<_>>().join(" "))
             }
+            ["link", target] => {
+                let Some(t) = unhex(target) else { return "bad-op".into() };
+                let nt = NodeType::from_link(Path::new(std::ffi::OsStr::from_bytes(&t)));
+                let NodeType::Symlink { linktarget, linktarget_raw } = &nt else { return "oracle-fail:link-type".into() };
+                let back = nt.to_link().as_os_str().as_bytes().to_vec();
+                if back != t {
+                    return "oracle-fail:link-roundtrip".into();
+                }
+                // the node as it is stored in a tree blob and read again
+                let node = Node::new_node(std::ffi::OsStr::new("l"), nt.clone(), Metadata::default());
+                let parsed: Option<Node> = serde_json::to_string(&node).ok().and_then(|js| serde_json::from_str(&js).ok());
+                match parsed {
+                    Some(n) if n.is_symlink() && n.node_type.to_link().as_os_str().as_bytes() == t.as_slice() => {}
+                    _ => return "oracle-fail:link-serde".into(),
+                }
+                let s = if linktarget_raw.is_some() { "-".to_string() } else { hex(linktarget.as_bytes()) };
+                format!("ok {} {} {s}", u8::from(linktarget_raw.is_some()), hex(&back))
+            }
             ["e2e", rest @ ..] => run_e2e(rest, false),
             ["e2el", rest @ ..] => run_e2e(rest, true),
             _ => "bad-op".into(),
@@ -1110,6 +1130,46 @@ pub fn generate(thorough: bool, rng: &mut Rng, ops: &mut Vec<String>, stats: &mu
         }
         stats.hit("coalesce");
         ops.push(format!("c01 coalesce {}", locs.join(",")));
+    }
+    // link targets as stored in a node
+    const LINKS: [&[u8]; 14] = [
+        b"", b"a", b"/", b"\xc3\xa9", b"\xf0\x9f\x98\x80", b"\xff", b"\xe2\x82", b"a\xe2\x82", b"\xed\xa0\x80", b"\xc0\xaf", b"\xf4\x90\x80\x80", b"a\\b\"c\nd", b"\x00",
+        b"\xef\xbf\xbd",
+    ];
+    for t in LINKS {
+        ops.push(format!("c01 link {}", hex(t)));
+    }
+    for i in 0..(if thorough { 3000 } else { 300 }) {
+        let mut t = match i % 6 {
+            0 => {
+                // valid UTF-8 of all encoded lengths
+                let n = rng.below(12) as usize;
+                let cs = ['a', '/', '\\', '"', '\n', 'é', '€', '😀', '\u{7f}', '\u{80}', '\u{7ff}', '\u{800}', '\u{ffff}', '\u{10000}', '\u{10ffff}', '\u{fffd}'];
+                (0..n).map(|_| *rng.pick(&cs)).collect::<String>().into_bytes()
+            }
+            1 => {
+                let n = *rng.pick(&[4095usize, 4096, 4097, 5000]);
+                let mut v = rng.bytes(n);
+                if rng.chance(1, 2) {
+                    for b in &mut v {
+                        *b = b'a' + *b % 26;
+                    }
+                }
+                v
+            }
+            2 => {
+                let n = rng.below(10) as usize;
+                rng.bytes(n)
+            }
+            _ => rand_target(rng, stats),
+        };
+        if rng.chance(1, 6) {
+            // a valid prefix with one broken byte somewhere
+            let k = rng.below(t.len() as u64 + 1) as usize;
+            t.insert(k, *rng.pick(&[0xffu8, 0x80, 0xc3, 0xe2, 0xf0, 0xed, 0]));
+        }
+        stats.hit(if std::str::from_utf8(&t).is_ok() { "link.utf8" } else { "link.non-utf8" });
+        ops.push(format!("c01 link {}", hex(&t)));
     }
     // end to end: the classic mix, shaped scenarios on the in-memory source, and real directories
     let (n_classic, n_shaped, n_local) = if thorough { (1500, 120, 400) } else { (150, 16, 40) };
